@@ -227,6 +227,8 @@ pub fn def(ctx: &Ctx) -> PropertyDef {
         }
     }
     micros.push(Micro { status: CommandStatus::Accepted, pollers: 2, polls: 1, change_waker: false });
+    // an acknowledgement handed from context to context many times (six distinct wakers, one after the other)
+    micros.push(Micro { status: CommandStatus::Accepted, pollers: 1, polls: 6, change_waker: true });
     if !ctx.quick() {
         micros.push(Micro { status: CommandStatus::Accepted, pollers: 2, polls: 2, change_waker: false });
         micros.push(Micro { status: CommandStatus::ShuttingDown, pollers: 2, polls: 2, change_waker: true });
@@ -256,6 +258,8 @@ pub fn def(ctx: &Ctx) -> PropertyDef {
         mk("await/put;await;get", vec![], vec![vec![Op::Put { k: 1, w: Some(2), ttl_ms: None }, Op::Await { call: 0 }, Op::Read { k: 1, variant: ReadVariant::Get }]]),
         mk("await/delete;await;get", vec![Op::Put { k: 1, w: Some(2), ttl_ms: None }], vec![vec![Op::Delete { k: 1 }, Op::Await { call: 0 }, Op::Read { k: 1, variant: ReadVariant::Get }]]),
         mk("await/upsert-weight;await", vec![Op::Put { k: 1, w: Some(2), ttl_ms: None }], vec![vec![Op::Upsert { k: 1, value: true, w: Some(3), ttl_ms: None, remove_ttl: false }, Op::Await { call: 0 }, Op::Read { k: 1, variant: ReadVariant::Get }]]),
+        // the second life of a key that was evicted: accepted means readable, again
+        mk("await/evicting-put;await;delete;await;put(evicted key);await;get", vec![Op::Put { k: 1, w: Some(6), ttl_ms: None }, Op::Put { k: 2, w: Some(4), ttl_ms: None }], vec![vec![Op::Put { k: 3, w: Some(7), ttl_ms: None }, Op::Await { call: 0 }, Op::Delete { k: 3 }, Op::Await { call: 2 }, Op::Put { k: 1, w: Some(6), ttl_ms: None }, Op::Await { call: 4 }, Op::Read { k: 1, variant: ReadVariant::Get }, Op::Put { k: 2, w: Some(4), ttl_ms: Some(5000) }, Op::Await { call: 7 }, Op::Read { k: 2, variant: ReadVariant::Get }]]),
         // acknowledgements of commands whose key is gone by the time the worker reaches them
         mk("await/delete;upsert-weight unawaited;await both", vec![Op::Put { k: 1, w: Some(2), ttl_ms: None }], vec![vec![Op::Delete { k: 1 }, Op::Upsert { k: 1, value: true, w: Some(3), ttl_ms: None, remove_ttl: false }, Op::Await { call: 0 }, Op::Await { call: 1 }]]),
         mk("await/delete;delete unawaited;await both", vec![Op::Put { k: 1, w: Some(2), ttl_ms: None }], vec![vec![Op::Delete { k: 1 }, Op::Delete { k: 1 }, Op::Await { call: 1 }, Op::Await { call: 0 }]]),
